@@ -96,5 +96,23 @@ pages!(send_pages_p0, 0, 16, 12, 8, 3);
 pages!(send_pages_p1_16, 1, 16, 12, 8, 3);
 pages!(send_pages_p1_48, 1, 48, 30, 7, 3);
 pages!(send_pages_p2_16, 2, 16, 12, 8, 3);
+pages!(send_pages_p1_16_a1, 1, 16, 12, 8, 1);
+pages!(send_pages_p1_32_a1, 1, 32, 28, 8, 1);
 pages!(send_pages_p1_48_a1, 1, 48, 30, 7, 1);
 pages!(send_pages_p2_16_a1, 2, 16, 12, 8, 1);
+
+/// Quick-tier variant of `configure`: one sign type, conversations limited to the first transfer
+/// attempt (the retry logic is shared with send_pages, which is explored with all three attempts).
+#[kani::proof]
+#[kani::stub(std::fmt::format, crate::ctl::no_format)]
+fn configure_a1() {
+    let (res, bus) = run_unit_bounded(Call::Configure, Replies::Arbitrary, true, true, 0, 1, true);
+    let b = bus.borrow();
+    assert!(b.ctl.phase == Phase::Done, "C10: operation returned although the protocol prescribes further messages");
+    assert!(outcome_matches(b.ctl.outcome, res), "C10: outcome (success / protocol error / bus error) differs from the documented protocol");
+    kani::cover!(res == Res::Ok, "success");
+    kani::cover!(res == Res::Unexpected, "protocol error");
+    kani::cover!(res == Res::Bus, "bus error");
+    drop(b);
+    std::mem::forget(bus);
+}
